@@ -112,3 +112,32 @@ Example uid_counter_refuted :
 Proof.
   vm_compute. repeat split. exists 0%nat. left. split; left; reflexivity.
 Qed.
+
+(** ** the "benign" lazy initialisation of a field of a shared object (e.g. memoising an accessor
+    of a meta object on first use): read the cache cell 0; if empty compute (here: 42) and store.
+    In this sequentially consistent model every goroutine still obtains 42 under every schedule -
+    which is exactly why the pattern looks harmless - but the footprint hypothesis fails and the
+    steps conflict: it is a data race (and under the Go memory model a racy read is not even
+    guaranteed to see 0 or 42).  The obligations of Conc/Footprint.v and the race detector reject
+    it; the theorem does not (and must not) cover it. *)
+Definition lazy_step1 : step lstate :=
+  mkStep lstate [0%nat] [] (fun st h => ((1%nat, h 0%nat), h)).
+Definition lazy_step2 : step lstate :=
+  mkStep lstate [] [0%nat]
+    (fun st h => if snd st =? 0 then ((2%nat, 42), upd h 0%nat 42) else ((2%nat, snd st), h)).
+Definition lazy_reader (i : nat) : op lstate :=
+  mkOp lstate [0%nat] [0%nat] (0%nat, 0)
+    (fun st => match fst st with O => Some lazy_step1 | S O => Some lazy_step2 | _ => None end).
+
+Example lazy_init_is_a_race :
+  ~ writes_disjoint lstate lazy_reader /\ conflict lstate lazy_step2 lazy_step1 /\
+  snd (locals lstate (run lstate lazy_reader (fun _ => 0) [0;1;0;1]%nat) 0%nat) = 42 /\
+  snd (locals lstate (run lstate lazy_reader (fun _ => 0) [0;1;0;1]%nat) 1%nat) = 42 /\
+  snd (locals lstate (run lstate lazy_reader (fun _ => 0) [0;0;1;1]%nat) 1%nat) = 42.
+Proof.
+  split.
+  { intros H. apply (H 0%nat 1%nat 0%nat); [discriminate|left; reflexivity|left; reflexivity]. }
+  split.
+  { exists 0%nat. left. split; left; reflexivity. }
+  vm_compute. repeat split.
+Qed.
